@@ -123,7 +123,11 @@ func (ci *ChunkInfo) UpdateChunkInfoSource(rootCid, sourceOverlay boson.Address,
 		return fmt.Errorf("chunk info : source is not exists")
 	}
 
-	v := ci.getCidSort(rootCid, cid)
+	v, ok := ci.getCidSort(rootCid, cid)
+	if !ok {
+		// not a data chunk of the file: nothing to mark
+		return nil
+	}
 	for _, bit := range ci.cs.presence[rc].ChunkSource {
 		if bit.Get(v) {
 			return nil
